@@ -310,6 +310,55 @@ static void ossl_stream_hash(const EVP_CIPHER *ci, int enc, const uint8_t *key, 
         EVP_DigestFinal_ex(m, hash, &l);
         free(tmp); EVP_CIPHER_CTX_free(c); EVP_MD_CTX_free(m);
 }
+/* ---- AAD whose bit length (>= 2^29 bytes) or byte length (>= 2^32 bytes) does not fit 32 bits; aad_len is a uint64_t in the API ---- */
+static void run_gcm_aad_huge(int thorough)
+{
+        static const uint64_t aadlens[] = { (1ull << 29) + 33, (1ull << 32) + 4113 };
+        uint8_t *aad = alias_in(aadlens[1] + 4096);
+        uint8_t key[32], iv[16] __attribute__((aligned(16))), msg[64], ect[64], etag[16], ct[64], tag[16];
+        rng_t r; rng_seed(&r, g_seed ^ 0xaad6e); rng_fill(&r, key, 32); rng_fill(&r, iv, 16); rng_fill(&r, msg, 64);
+        char key_[160];
+        for (int li = 0; li < 2; li++) for (int ks = 0; ks < 2; ks++) {
+                uint64_t al = aadlens[li]; uint32_t len = 37;
+                int computed = 0;
+                for (int fi = 0; fi < NGCMFAM; fi++) {
+                        const gcmfam_t *f = &gcm_fams[fi];
+                        if (!fam_selected(f->name)) continue;
+                        /* quick: 2^29+33 on every family (128-bit key), 2^32+4113 on vaes_avx512 only; thorough: everything */
+                        if (!thorough && (ks == 1 || (li == 1 && strcmp(f->name, "vaes_avx512")))) continue;
+                        if (!computed) {
+                                EVP_CIPHER_CTX *c = EVP_CIPHER_CTX_new(); int n;
+                                EVP_CipherInit_ex(c, ks ? EVP_aes_256_gcm() : EVP_aes_128_gcm(), NULL, NULL, NULL, 1);
+                                EVP_CIPHER_CTX_ctrl(c, EVP_CTRL_GCM_SET_IVLEN, 12, NULL);
+                                EVP_CipherInit_ex(c, NULL, NULL, key, iv, 1);
+                                for (uint64_t o = 0; o < al; o += 1u << 30) if (!EVP_CipherUpdate(c, NULL, &n, aad + o, (int) (al - o > (1u << 30) ? (1u << 30) : al - o))) out_err("OpenSSL refused the AAD");
+                                EVP_CipherUpdate(c, ect, &n, msg, (int) len); EVP_CipherFinal_ex(c, ect + n, &n);
+                                EVP_CIPHER_CTX_ctrl(c, EVP_CTRL_GCM_GET_TAG, 16, etag); EVP_CIPHER_CTX_free(c);
+                                computed = 1;
+                        }
+                        snprintf(rbuf, sizeof rbuf, "{\"engine\":\"aesdiff\",\"what\":\"gcmaadhuge\",\"fam\":\"%s\",\"ks\":%d,\"aad_len\":%llu}", f->name, ks_bits2[ks], (unsigned long long) al); snprintf(cur_replay, sizeof cur_replay, "%s", rbuf);
+                        struct isal_gcm_key_data kd __attribute__((aligned(64))); struct isal_gcm_context_data ctx;
+                        ref_aes_t a; ref_aes_expand(&a, key, ks_bits2[ks]);
+                        memset(&kd, 0, sizeof kd); memcpy(&kd, a.enc, (size_t) 16 * (a.nr + 1)); f->s.precomp[ks](&kd);
+                        for (int shape = 0; shape < 2; shape++) {
+                                memset(ct, 0xA5, sizeof ct); memset(tag, 0x5A, 16);
+                                LABEL("gcm%d %s %s aad_len=%llu len=%u", ks_bits2[ks], f->name, shape ? "init/update/finalize" : "one-shot", (unsigned long long) al, len);
+                                if (shape == 0) f->s.one[ks][0][0](&kd, &ctx, ct, msg, len, iv, aad, al, tag, 16);
+                                else { f->s.init[ks](&kd, &ctx, iv, aad, al); f->s.upd[ks][0][0](&kd, &ctx, ct, msg, len); f->s.fin[ks][0](&kd, &ctx, tag, 16); }
+                                cur_label[0] = 0;
+                                out_count("gcm_calls", 1); out_count("gcm_huge_aad_calls", 1);
+                                if (memcmp(ct, ect, len) || memcmp(tag, etag, 16)) {
+                                        char g[33], e[33]; hex(g, tag, 16); hex(e, etag, 16);
+                                        snprintf(key_, sizeof key_, "gcm-huge-aad-mismatch %d %s %s", ks_bits2[ks], f->name, al >> 32 ? "aad>=2^32" : "aad>=2^29");
+                                        out_viol(g_prop, key_, rbuf, "%s with aad_len=%llu, len=%u: %s differs from OpenSSL (tag %s expected %s)", shape ? "init/update/finalize" : "one-shot", (unsigned long long) al, len, memcmp(ct, ect, len) ? "ciphertext" : "tag", g, e);
+                                }
+                        }
+                        feat(mix64(0xaad6e, (uint64_t) fi * 4 + (uint64_t) ks * 2 + (uint64_t) li));
+                        char n[64]; snprintf(n, sizeof n, "cases_%s", f->name); out_count(n, 1);
+                }
+        }
+}
+
 static void run_huge2(const char *what, int thorough)
 {
         uint64_t len = !strcmp(what, "cbchuge") ? (1ull << 32) + 48 : (1ull << 32) + 10;
@@ -606,6 +655,7 @@ int main(int argc, char **argv)
         if (!strcmp(what, "gcm")) run_gcm(0, thorough);
         else if (!strcmp(what, "gcmstream")) run_gcm(1, thorough);
         else if (!strcmp(what, "gcmhuge")) run_gcm_huge(thorough);
+        else if (!strcmp(what, "gcmaadhuge")) run_gcm_aad_huge(thorough);
         else if (!strcmp(what, "gcmhuge2") || !strcmp(what, "cbchuge")) run_huge2(what, thorough);
         else if (!strcmp(what, "xts")) run_xts(thorough);
         else if (!strcmp(what, "cbc")) run_cbc(thorough);
